@@ -82,8 +82,16 @@ pub fn generate(g: &mut Gen, thorough: bool) {
             g.push(format!("S_C14\tcurv\t{ellps}\t{kind}\t{}", data_of(&deg)), "oracle-curvature-ellipsoid", true);
             g.push(op_line("default", &[], &[], &format!("curvature {kind} ellps={ellps}"), "apply", "F", &data_of(&deg)), "model-curvature", true);
         }
+        let level = g.rng.uniform(50.0, 4000.0);
+        let levels: Vec<[f64; 4]> = (0..6).map(|i| [g.rng.uniform(-89.0, 89.0), if i == 3 { 0.0 } else { level }, 7.0, 2000.0]).collect();
         for kind in ["cassinis", "jeffreys", "grs67", "grs80", "welmec", "default"] {
             g.push(format!("S_C14\tgrav\t{ellps}\t{kind}\t{}", data_of(&deg)), "oracle-gravity-ellipsoid", true);
+            // (levels: several latitudes at one height - what an operator gives for a tuple does not depend on its neighbours)
+            g.push(format!("S_C14\tgrav\t{ellps}\t{kind}\t{}", data_of(&levels)), "oracle-gravity-ellipsoid-levels", true);
+            let name = if kind == "default" { String::new() } else { format!(" {kind}") };
+            for zh in ["", " zero-height"] {
+                g.push(op_line("default", &[], &[], &format!("gravity{name}{zh} ellps={ellps}"), "apply", "F", &data_of(&levels)), "model-gravity", true);
+            }
         }
         // (azimuths in either convention: ]-180, 180] and [0, 360[, and a turn beyond)
         let gd: Vec<[f64; 4]> = (0..8).map(|i| [g.rng.uniform(-80.0, 80.0), g.rng.uniform(-170.0, 170.0), if i < 3 { g.rng.uniform(180.0, 360.0) } else { g.rng.uniform(-360.0, 400.0) }, g.rng.uniform(10.0, 1.5e7)]).collect();
